@@ -27,8 +27,11 @@ LEVEL = "proof"
 CONF = {"storage": {"_filesystem_fsync": "True"}, "auth": {"type": "none"}}
 
 
+EXTRA = {}          # storage options of the configuration variant under test (set by run)
+
+
 def conf():
-    return dict(CONF, rights=permissive_rights())
+    return dict(CONF, storage=dict(CONF["storage"], **EXTRA), rights=permissive_rights())
 
 
 def hidden(p):
@@ -181,11 +184,13 @@ def one_kind(ctx, name, kind, shape, errnos, template_root):
     tree_after = tree(ref)
     shutil.rmtree(ref)
     base_case = {"request": name, "store_shape": shape, "login": login}
+    if EXTRA:
+        base_case["storage_options"] = dict(EXTRA)
     if st != expect:
         ctx.violation("reference run of %s answered %s" % (name, st), base_case, expect, st)
         return
     if ctx.driver:
-        mops, commits, _ = scenarios.model_trace(ctx.driver, calls, True)
+        mops, commits, _ = scenarios.model_trace(ctx.driver, calls, True, cache_in_coll=EXTRA.get("use_cache_subfolder_for_item") != "True")
         if mops != proj:
             ctx.disagree("data projection of the syscall log vs model trace", base_case, proj, mops)
         if len(commits) != 1:
@@ -250,6 +255,18 @@ def run(ctx):
                 else:
                     errnos = [errno.ENOSPC, errno.EACCES, errno.EIO]
                 one_kind(ctx, name, kinds[name], shape, errnos, root)
+        # the same under other storage options (cache keying and layout change what a request does around its commit point)
+        variants = [({"use_mtime_and_size_for_item_cache": "True"}, ["move_overwrite", "put_overwrite"]),
+                    ({"use_cache_subfolder_for_item": "True", "use_cache_subfolder_for_history": "True", "use_cache_subfolder_for_synctoken": "True"},
+                     ["put_whole_replace", "move_across"])]
+        for extra, vnames in variants:
+            EXTRA.clear()
+            EXTRA.update(extra)
+            try:
+                for name in (vnames if ctx.tier == "quick" else list(kinds)):
+                    one_kind(ctx, name, kinds[name], shapes[0], [errno.EIO] if ctx.tier == "quick" else [errno.ENOSPC, errno.EACCES, errno.EIO], root)
+            finally:
+                EXTRA.clear()
         ctx.extra["exhaustive"] = True
     finally:
         shutil.rmtree(root, ignore_errors=True)
